@@ -672,6 +672,18 @@ func (p *Proc) evalCompositeLit(ec *ectx, x *ast.CompositeLit, addr bool) Val {
 		if addr {
 			r := p.alloc(ec.st, p.ctx.structName(typ))
 			if opaqueStruct(typ) {
+				// a struct type of another module: only its exported fields of basic type are
+				// modelled (those a contract can read); the literal gives them their values,
+				// or their zero values
+				for i := 0; i < ut.NumFields(); i++ {
+					f := ut.Field(i)
+					if _, basic := f.Type().Underlying().(*types.Basic); !basic || !f.Exported() {
+						continue
+					}
+					key := p.fieldHeapKey(typ, f)
+					h := p.fieldHeap(ec.st, typ, f)
+					p.heapSet(ec.st, key, Store(h, r, vals[i]))
+				}
 				return Val{T: r, Typ: types.NewPointer(typ)}
 			}
 			for i := 0; i < ut.NumFields(); i++ {
